@@ -24,12 +24,13 @@ SPEC = {
         {'bin': 'c14', 'shards': 4, 'sub': 'dry', 'env': _ENV},
         {'bin': 'c14', 'shards': 8, 'sub': 'live', 'env': _ENV},
         {'bin': 'c14', 'shards': 8, 'sub': 'xpage', 'env': _ENV},
+        {'bin': 'c14', 'shards': 4, 'sub': 'handmade', 'env': _ENV},
         # placeholder capacity boundary: the real apply path on every corpus function x placeholder bodies of U-14..U bytes
         {'bin': 'c03', 'shards': 16, 'sub': 'capacity', 'env': {'GODEBUG': 'clobberfree=0'}},
         # environment seam: the syscall shim logs every mprotect request goom makes (PROT_EXEC must never be dropped)
         {'bin': 'c14shim', 'shards': 4, 'sub': 'protlog', 'env': _ENV},
     ],
-    'rule': 'capacity: for every function of the corpus binaries (the harness binaries; thorough adds the go tool) whose complete trampoline the real apply path builds in a roomy scratch placeholder using U bytes, a fresh placeholder (never a reused address: goom caches measured sizes by start address) is built with a body of k bytes and p bytes of int3 padding (goom counts the padding as room) for every k+p in [U-14,U], p in {1,16} (thorough {1,2,3,16}), followed by a neighbour function, and the apply repeated: no byte of the neighbour may change, a refused apply changes nothing (evaluations = applies; non-trivial = functions whose trampoline is longer than head + rel32 jump). engine E. dry: one case per entry of the runtime function table (FuncForPC walk over .text) = GetFuncSize + '
+    'rule': 'handmade: hand-made functions in a private executable mapping, each at a fresh address: (530 instruction heads: ordinary ones, encodings newer than the bundled decoder, every 0F xx C0 and every xx C0) + RET + int3 padding up to a slot of 4..jumpLen+1 bytes, directly followed by a neighbour function; patch.Ptr (never applied) must refuse every slot shorter than the jump and change no byte. capacity: for every function of the corpus binaries (the harness binaries; thorough adds the go tool) whose complete trampoline the real apply path builds in a roomy scratch placeholder using U bytes, a fresh placeholder (never a reused address: goom caches measured sizes by start address) is built with a body of k bytes and p bytes of int3 padding (goom counts the padding as room) for every k+p in [U-14,U], p in {1,16} (thorough {1,2,3,16}), followed by a neighbour function, and the apply repeated: no byte of the neighbour may change, a refused apply changes nothing (evaluations = applies; non-trivial = functions whose trampoline is longer than head + rel32 jump). engine E. dry: one case per entry of the runtime function table (FuncForPC walk over .text) = GetFuncSize + '
             'patch.Ptr (never applied) + UnpatchAll; plus 50 functions x k=1..jumpLen+2 synthetic entries end-k in int3 padding '
             '(k < jumpLen must be refused, k = jumpLen unjudged, k > jumpLen recorded). live: one case per (sequence, target'
             '[, placeholder]); sequences quick = {patch apply unpatch unpatchAll; patch apply unpatchAll; trampoline apply unpatch '
